@@ -3,11 +3,13 @@ package checks
 import (
 	"errors"
 	"fmt"
+	"io"
 	"net/http"
 	"net/http/httptest"
 	"strings"
 	"time"
 
+	"github.com/gookit/color"
 	"github.com/gookit/rux"
 	"github.com/gookit/rux/pkg/handlers"
 
@@ -39,6 +41,8 @@ type c09Case struct {
 	PlainW bool `json:"plain_response_writer,omitempty"`
 	// PreAbort: the panicking handler calls c.Abort() right before it panics
 	PreAbort bool `json:"abort_before_panic,omitempty"`
+	// Logger: handlers.ConsoleLogger is the first global middleware and the request's path is on its skip list
+	Logger bool `json:"console_logger_skipping_this_path,omitempty"`
 }
 
 type c09Val struct{ A, B int }
@@ -55,6 +59,10 @@ func c09Value(kind string) any {
 		return http.ErrAbortHandler // what a reverse proxy panics with
 	case "int":
 		return 42
+	case "invalid-status":
+		// not raised by the handler itself: it selects status 99 and writes; the caller's ResponseWriter refuses the
+		// status with this panic (as net/http does) when the header is committed
+		return "invalid WriteHeader code 99"
 	}
 	return "boom-string"
 }
@@ -93,6 +101,10 @@ func newC09Router(c c09Case) *c09Router {
 			}
 		}
 	}
+	if c.Logger {
+		color.SetOutput(io.Discard)
+		r.Use(handlers.ConsoleLogger("/p"))
+	}
 	if c.PanicsMW {
 		r.Use(handlers.PanicsHandler())
 	}
@@ -110,6 +122,15 @@ func newC09Router(c c09Case) *c09Router {
 		})
 	}
 	val := c09Value(c.Value)
+	raise := func(ctx *rux.Context) {
+		if c.Value == "invalid-status" {
+			ctx.SetStatus(99)
+			ctx.WriteString("x") // the commit of status 99 panics inside the caller's writer
+			cr.log = append(cr.log, "no-panic-from-writer")
+			return
+		}
+		panic(val)
+	}
 	mk := func(i int) rux.HandlerFunc {
 		return func(ctx *rux.Context) {
 			cr.log = append(cr.log, fmt.Sprintf("enter%d", i))
@@ -126,7 +147,7 @@ func newC09Router(c c09Case) *c09Router {
 					ctx.Abort()
 				}
 				cr.log = append(cr.log, "panic")
-				panic(val)
+				raise(ctx)
 			}
 			if !(i == c.Pos && c.When == "no-next") {
 				ctx.Next()
@@ -139,7 +160,7 @@ func newC09Router(c c09Case) *c09Router {
 					ctx.Abort()
 				}
 				cr.log = append(cr.log, "panic")
-				panic(val)
+				raise(ctx)
 			}
 			cr.log = append(cr.log, fmt.Sprintf("leave%d", i))
 		}
@@ -238,6 +259,9 @@ func c09Run(c c09Case, st *fw.Stats) []fw.Viol {
 		} else {
 			add("panic:harness", fmt.Sprintf("%s: the panic point was never reached: trace [%s]", desc, trace))
 		}
+		if strings.Contains(trace, "no-panic-from-writer") {
+			add("panic:harness", fmt.Sprintf("%s: the recording writer did not refuse status 99: trace [%s]", desc, trace))
+		}
 		nWH, firstWH := 0, ""
 		for _, e := range w.log {
 			if strings.HasPrefix(e, "WH:") {
@@ -266,6 +290,13 @@ func c09Run(c c09Case, st *fw.Stats) []fw.Viol {
 			}
 			if cr.hookSaw != val {
 				add("panic:hook-value", fmt.Sprintf("%s: the hook saw %v under CTXRecoverResult, want %v", desc, cr.hookSaw, val))
+			}
+			if c.Value == "invalid-status" {
+				// the caller's writer refused the only header commit; what remains observable is the hook's body
+				if want := map[string]string{"status-body": "H", "body": "H", "abort-status": "H\n"}[c.Hook]; string(w.body) != want {
+					add("panic:body", fmt.Sprintf("%s: body %q, expected %q", desc, w.body, want))
+				}
+				break
 			}
 			if nWH != 1 {
 				sig := "panic:header-commits"
@@ -354,6 +385,10 @@ func c09Gen(tier string, emit func(c09Case)) {
 									emit(c09Case{Where: "chain", N: n, Split: sp, Pos: pos, When: when, Value: v, Hook: hk, PlainW: true, Committed: true})
 									emit(c09Case{Where: "chain", N: n, Split: sp, Pos: pos, When: when, Value: v, Hook: hk, PreAbort: true})
 									emit(c09Case{Where: "chain", N: n, Split: sp, Pos: pos, When: when, Value: v, Hook: hk, PreAbort: true, Committed: true})
+									emit(c09Case{Where: "chain", N: n, Split: sp, Pos: pos, When: when, Value: v, Hook: hk, Logger: true})
+									emit(c09Case{Where: "chain", N: n, Split: sp, Pos: pos, When: when, Value: v, Hook: hk, Logger: true, Committed: true})
+									emit(c09Case{Where: "chain", N: n, Split: sp, Pos: pos, When: when, Value: "invalid-status", Hook: hk})
+									emit(c09Case{Where: "chain", N: n, Split: sp, Pos: pos, When: when, Value: "invalid-status", Hook: hk, PanicsMW: true})
 								}
 								if f == 0 || f == 2 {
 									emit(c09Case{Where: "chain", N: n, Split: sp, Pos: pos, When: when, Value: v, Hook: hk, Committed: f&2 != 0, Mounted: true})
@@ -395,7 +430,7 @@ func c09Gen(tier string, emit func(c09Case)) {
 var c09Spec = fw.Spec[c09Case]{
 	ID:    "C09",
 	Level: "model_checking",
-	Rule: "complete product: chain shapes n<=3 (thorough 5) x every global/group/route split x every panic position x {before Next, after Next, without Next} x panic value {string, error, struct, http.ErrAbortHandler, int} x hook {absent, does nothing, status only, status+body, body only, AbortWithStatus(503, message)} x {PanicsHandler middleware} x {a byte committed before the panic} (+ the panic request issued twice) (+ the router mounted behind a front router that passes its context on with HandleContext) (+ under the Timeout middleware with a deadline that is far away / has already passed) (+ on a caller's writer without Flush) (+ the panicking handler calls Abort first), plus panics inside NotFound / NotAllowed / OnError handlers; each followed by every one of 15 follow-up request kinds compared with a fresh identical router; " +
+	Rule: "complete product: chain shapes n<=3 (thorough 5) x every global/group/route split x every panic position x {before Next, after Next, without Next} x panic value {string, error, struct, http.ErrAbortHandler, int} x hook {absent, does nothing, status only, status+body, body only, AbortWithStatus(503, message)} x {PanicsHandler middleware} x {a byte committed before the panic} (+ the panic request issued twice) (+ the router mounted behind a front router that passes its context on with HandleContext) (+ under the Timeout middleware with a deadline that is far away / has already passed) (+ on a caller's writer without Flush) (+ the panicking handler calls Abort first) (+ handlers.ConsoleLogger first in the chain with the request's path on its skip list) (+ the panic raised by the caller's ResponseWriter when the handler commits status 99), plus panics inside NotFound / NotAllowed / OnError handlers; each followed by every one of 15 follow-up request kinds compared with a fresh identical router; " +
 		"every case is non-trivial (a panic is raised in each)",
 	Assume: []string{"for the in-chain PanicsHandler only 'the panic does not escape' and 'follow-ups are unaffected' are asserted (the statement promises nothing else for it)", "when the hook sets no status, any single committed status is accepted"},
 	Bounds: func(tier string) map[string]any {
